@@ -17,31 +17,49 @@ open Gaftools.Realign Gaftools.Gen
 def procOf (w : Worker) : Proc := (w.st == .running, match w.st with | .exited c => some c | .running => none)
 def procs (s : St) : List Proc := s.ws.map procOf
 
-theorem foldr_any {α} (q : α → Bool) (l : List α) : l.foldr (fun p acc => if q p then true else acc) false = l.any q := by
+/-- a fold whose step is semantically "`q p` or the rest" is `any q` (whatever the shape of the translated loop body) -/
+theorem foldr_sem_any {α} (f : α → Bool → Bool) (q : α → Bool) (fin : Bool) (hfin : fin = false)
+    (h : ∀ p acc, f p acc = (q p || acc)) (l : List α) : l.foldr f fin = l.any q := by
+  subst hfin
   induction l with
   | nil => rfl
-  | cons a t ih => simp only [List.foldr_cons, List.any_cons, ih]; cases q a <;> simp
+  | cons a t ih => simp only [List.foldr_cons, List.any_cons, ih, h]
 
-theorem foldr_all {α} (q : α → Bool) (l : List α) : l.foldr (fun p acc => if q p then false else acc) true = l.all (fun p => !q p) := by
+/-- a fold whose step is semantically "`q p` and the rest" is `all q` -/
+theorem foldr_sem_all {α} (f : α → Bool → Bool) (q : α → Bool) (fin : Bool) (hfin : fin = true)
+    (h : ∀ p acc, f p acc = (q p && acc)) (l : List α) : l.foldr f fin = l.all q := by
+  subst hfin
   induction l with
   | nil => rfl
-  | cons a t ih => simp only [List.foldr_cons, List.all_cons, ih]; cases q a <;> simp
+  | cons a t ih => simp only [List.foldr_cons, List.all_cons, ih, h]
+
+/-- decide a Boolean identity over what the parent sees of one process: alive or not, exit code absent / zero / non-zero -/
+macro "proc_cases" : tactic => `(tactic| (
+  intro p acc
+  obtain ⟨a, e⟩ := p
+  cases a <;> cases acc <;> cases e with
+  | none => first | rfl | decide | simp
+  | some c =>
+    by_cases h0 : c = 0
+    · subst h0; first | rfl | decide | simp
+    · have h1 : ((some c : Option Int) != some 0) = true := by simp only [bne_iff_ne, ne_eq, Option.some.injEq]; exact h0
+      have h2 : ((some c : Option Int) == some 0) = false := by
+        simp only [beq_eq_false_iff_ne, ne_eq, Option.some.injEq]; exact h0
+      first | rfl | simp [h1, h2] | simp_all))
 
 theorem oneIsAlive_gen (s : St) : oneIsAlive (procs s) = anyRunning s := by
   unfold oneIsAlive procs anyRunning
-  rw [foldr_any (fun p : Proc => p.1), List.any_map]
+  rw [foldr_sem_any _ (fun p : Proc => p.1) _ rfl (by proc_cases), List.any_map]
   rfl
 
 theorem allAreAlive_gen (s : St) : allAreAlive (procs s) = s.ws.all (fun w => w.st == .running) := by
   unfold allAreAlive procs
-  rw [foldr_all (fun p : Proc => !p.1), List.all_map]
-  congr 1
-  funext w
-  simp [procOf]
+  rw [foldr_sem_all _ (fun p : Proc => p.1) _ rfl (by proc_cases), List.all_map]
+  rfl
 
 theorem allExited_gen (s : St) : allExited (procs s) = allExitedZero s := by
   unfold allExited procs allExitedZero
-  rw [foldr_all (fun p : Proc => p.2 != some (0 : Int)), List.all_map]
+  rw [foldr_sem_all _ (fun p : Proc => p.2 == some (0 : Int)) _ rfl (by proc_cases), List.all_map]
   congr 1
   funext w
   cases hw : w.st with
@@ -50,14 +68,15 @@ theorem allExited_gen (s : St) : allExited (procs s) = allExitedZero s := by
     simp only [Function.comp, procOf, hw]
     by_cases h0 : c = 0
     · subst h0; decide
-    · have h1 : ((some c : Option Int) != some 0) = true := by simp only [bne_iff_ne, ne_eq, Option.some.injEq]; exact h0
+    · have h1 : ((some c : Option Int) == some 0) = false := by
+        simp only [beq_eq_false_iff_ne, ne_eq, Option.some.injEq]; exact h0
       have h2 : (WSt.exited c == WSt.exited 0) = false := by
         simp only [beq_eq_false_iff_ne, ne_eq, WSt.exited.injEq]; exact h0
-      rw [h1, h2]; rfl
+      rw [h1, h2]
 
 theorem oneFailed_gen (s : St) : oneFailed (procs s) = anyFailed s := by
   unfold oneFailed procs anyFailed
-  rw [foldr_any (fun p : Proc => p.2.isSome && (p.2 != some (0 : Int))), List.any_map]
+  rw [foldr_sem_any _ (fun p : Proc => p.2.isSome && (p.2 != some (0 : Int))) _ rfl (by proc_cases), List.any_map]
   congr 1
   funext w
   cases hw : w.st with
